@@ -47,7 +47,37 @@ func (x *Exec) freshResults(st *State, sig *types.Signature, prefix string) []*V
 	return res
 }
 
+// callAssertions: `atcall` clauses of the function under verification for this call site.
+func (x *Exec) callAssertions(st *State, in ssa.Instruction, c *ssa.CallCommon, args []*Value) {
+	if x.fc == nil || len(x.fc.AtCall) == 0 || st.top().depth != 0 || x.discovery > 0 || in == nil {
+		return
+	}
+	name := ""
+	if c.IsInvoke() {
+		name = ifaceShort(c.Method, c.Value.Type())
+	} else if f := c.StaticCallee(); f != nil {
+		name = shortName(f)
+	}
+	cls := x.fc.AtCall[name]
+	if len(cls) == 0 {
+		return
+	}
+	names := cloneNames(x.params)
+	for i, a := range args {
+		names[fmt.Sprintf("arg%d", i)] = a
+	}
+	pkg := x.fn.Pkg.Pkg
+	env := &Env{x: x, st: st, old: x.entry, names: names, pkg: pkg, pkgPath: pkg.Path(), fn: x.fn, atBlock: st.curBlock, proving: true}
+	ord := x.callSiteOrdinal(in, name)
+	for _, cl := range cls {
+		g := x.evalBool(env, cl)
+		x.emit(st, fmt.Sprintf("atcall:%s.%s@%d", name, cl.Label, ord), "atcall", cl.Src, g)
+		st.assume(g)
+	}
+}
+
 func (x *Exec) callValue(st *State, in ssa.Instruction, c *ssa.CallCommon, fnv *Value, args []*Value, k Cont) {
+	x.callAssertions(st, in, c, args)
 	if c.IsInvoke() {
 		x.invoke(st, in, c, fnv, args, k)
 		return
@@ -401,7 +431,7 @@ func (x *Exec) applyContract(st *State, in ssa.Instruction, fc *FuncContract, si
 	bindResults(env.names, sig, res)
 	// frame
 	switch {
-	case fc.AssignsNone:
+	case fc.AssignsNone || (fc.Pure && len(fc.Assigns) == 0):
 	case len(fc.Assigns) > 0:
 		for _, a := range fc.Assigns {
 			x.havocLocation(env, a)
@@ -411,6 +441,9 @@ func (x *Exec) applyContract(st *State, in ssa.Instruction, fc *FuncContract, si
 	default:
 		if callee := x.eng.funcOfContract(fc); callee != nil {
 			ws := x.eng.writeSet(callee)
+			if ws.All {
+				x.note("contract of " + calleeName + " has no assigns clause and its computed write set is unbounded: whole heap havocked")
+			}
 			x.havocSet(st, ws)
 		} else {
 			x.havocAllHeap(st)
@@ -450,6 +483,40 @@ func (x *Exec) applyContract(st *State, in ssa.Instruction, fc *FuncContract, si
 	for _, e := range fc.Ensures {
 		g := x.evalBool(penv, e)
 		st.assume(g)
+	}
+	// ghost updates defined by the contract (performed at the callee's return)
+	for _, gs := range fc.Sets {
+		gv := x.eng.cs.Ghosts[gs.Ghost]
+		if gv == nil {
+			x.bindErrors = append(x.bindErrors, "sets: unknown ghost "+gs.Ghost)
+			continue
+		}
+		old := st.ghost[gs.Ghost]
+		if old == nil {
+			old = x.freshValue(st, x.eng.ghostType(gv), "ghost0_"+gs.Ghost)
+		}
+		cond := x.evalBool(penv, gs.Cond)
+		var val *Value
+		func() {
+			defer func() {
+				if r := recover(); r != nil {
+					if ee, ok := r.(evalError); ok {
+						x.bindErrors = append(x.bindErrors, "sets "+gs.Ghost+": "+ee.msg)
+						return
+					}
+					panic(r)
+				}
+			}()
+			val = penv.eval(gs.Expr.Expr)
+		}()
+		if val == nil {
+			continue
+		}
+		ts := x.flatten(val)
+		nv := x.freshValue(st, x.eng.ghostType(gv), "ghost_"+gs.Ghost)
+		st.assume(fmt.Sprintf("(= %s (ite %s %s %s))", nv.Term, cond, ts[0], old.Term))
+		st.ghost[gs.Ghost] = nv
+		st.written["G|"+gs.Ghost] = true
 	}
 	k(st, res)
 }
@@ -655,6 +722,7 @@ func (x *Exec) appendOp(st *State, rt types.Type, s, e *Value) *Value {
 	if s.K == KLeaf && isAbstractBytes(s.T) {
 		t := fmt.Sprintf("(bconcat %s %s)", s.Term, e.Term)
 		st.assume(fmt.Sprintf("(= (blen %s) (+ (blen %s) (blen %s)))", t, s.Term, e.Term))
+		st.assume(fmt.Sprintf("(=> (> (blen %s) 0) (= (bat %s 0) (bat %s 0)))", s.Term, t, s.Term))
 		st.assume(fmt.Sprintf("(=> (= (blen %s) 0) (= %s %s))", e.Term, t, s.Term))
 		st.assume(fmt.Sprintf("(=> (= (blen %s) 0) (= %s %s))", s.Term, t, e.Term))
 		return leaf(rt, t)
